@@ -76,6 +76,19 @@ Section C01.
     exists u, steps o ofZ tbl g dssizes c (dnames (dims t)) t (k_axes c) = Ok u /\
               restore_order g (dnames (dims t)) (k_axes c) u = Ok r.
   Proof. exact (grid_op_sequence o ofZ). Qed.
+
+  (* The result keeps the input's dimensions in the input's order: as many dimensions as the
+     input, and every dimension that belongs to no operated axis at the same place under the
+     same name (the dimension of an operated axis is replaced, in place, by the dimension of
+     that axis the result lies on) -- for any number of axes. *)
+  Theorem C01_dim_order : forall tbl (g : grid A) dssizes c (t : tensor A) r,
+    grid_op o ofZ tbl g dssizes c t = Ok r ->
+    List.length (dims r) = List.length (dims t) /\
+    forall i d, nth_error (dnames (dims t)) i = Some d ->
+      (forall axn a pd, In axn (k_axes c) -> find_axis g axn = Ok a ->
+                        get_position_name a (dnames (dims t)) = Ok pd -> snd pd <> d) ->
+      nth_error (dnames (dims r)) i = Some d.
+  Proof. exact (grid_op_dim_order o ofZ). Qed.
 End C01.
 
 Print Assumptions C01_table.
@@ -83,6 +96,7 @@ Print Assumptions C01_stencil_1d.
 Print Assumptions C01_stencil.
 Print Assumptions C01_sequence.
 Print Assumptions C01_call.
+Print Assumptions C01_dim_order.
 
 (* Non-vacuity: interp from center to outer, extend rule, on [1;5;2] (N = 3): the
    geometric widths are (1,1) and the four outer values are (1+1)/2, (1+5)/2, (5+2)/2,
